@@ -803,7 +803,7 @@ def rule_X(ctx):
     T, OT, TF, TW, TR, TC = cls['Track'], cls['ObsTime'], cls['TrackFormat'], cls['TrackWriter'], cls['TrackReader'], cls['TrackCollection']
     found = {}
     n_cases = 0
-    stamps = [(2021, 12, 31, 23, 59, 59, 750), (2022, 1, 1, 0, 0, 0, 0), (2020, 2, 29, 12, 30, 15, 500)]
+    stamps = [(2021, 12, 31, 23, 59, 59, 750), (1970, 1, 1, 0, 0, 0, 0), (2020, 2, 29, 12, 30, 15, 500)]          # the second one is the epoch itself (the default timestamp)
     geo = [[(2.12345678, 48.87654321, 35.5), (-179.99999999, -89.5, -10.25), (0.00000001, 0.0, 0.0)],
            [(180.0, 90.0, 58.0), (-180.0, -90.0, 59.0), (179.99999999, 89.99999999, 60.125)],          # the ends of the longitude / latitude ranges
            [(10.0, 20.0, 1.0), (10.5, 20.5, 2.0), (11.0, 21.0, 3.0)]]
